@@ -20,23 +20,23 @@ def modelVerdict : Json :=
     impl   = {race, deadlock, panic} observed;
     diffs  = responses that differ from the sequential replay, each with the facts of the guard;
     spec_ok = nothing observed and no difference;
-    known  = ["stale-resolved"] when the only failures are differences inside `HL.Bg.staleGuard`. -/
+    known  = ["resolved-pending"] when the only failures are differences inside `HL.Bg.pendingGuard`. -/
 def run (j : Json) : Json :=
   let impl := jget j "impl"
   let bad := jbool impl "race" || jbool impl "deadlock" || jbool impl "panic"
   let diffs := jarr j "diffs"
   let inGuard := diffs.all fun d =>
-    HL.Bg.staleGuard (jstr d "k") (jbool d "ws") (jnat d "inflight") (jbool d "overlap") (jbool d "diagoff")
+    HL.Bg.pendingGuard (jstr d "k") (jbool d "ws") (jbool d "inc") (jnat d "inflight") (jbool d "diagoff")
   let specOk := !bad && diffs.isEmpty
   let known : Array Json :=
-    if !bad && !diffs.isEmpty && inGuard then #["stale-resolved"] else #[]
+    if !bad && !diffs.isEmpty && inGuard then #["resolved-pending"] else #[]
   let why :=
     if jbool impl "race" then s!"data race reported by the race detector: {(jget j "pair").compress}"
     else if jbool impl "deadlock" then "handler or background goroutine stuck (goroutine dump in report)"
     else if jbool impl "panic" then "panic"
     else if !diffs.isEmpty then
       let d := diffs[0]!
-      s!"response {jstr d "k"} at op {(jget d "i").compress} differs from the sequential replay (ws={jbool d "ws"}, inflight={jnat d "inflight"}, overlap={jbool d "overlap"}, diagoff={jbool d "diagoff"})"
+      s!"response {jstr d "k"} at op {(jget d "i").compress} differs from the sequential replay (ws={jbool d "ws"}, include={jbool d "inc"}, inflight={jnat d "inflight"}, diagoff={jbool d "diagoff"})"
     else ""
   Json.mkObj [("model", modelVerdict), ("spec_ok", specOk), ("in_domain", true),
     ("known", Json.arr known), ("why", why)]
